@@ -124,6 +124,36 @@ def opWR (args obs : List String) : P String := do
   | [s, n, f, op, a, b, sr, nr, _route] => go s n f op a b sr nr
   | _ => throw "WR: arity"
 
+/-- `WQ <fx> <fy> <op> <a> <b> <reg> <rounding> <route> | code` — the exact result of `a op b` (codes of operands of
+formats `fx`, `fy`, fraction lengths included) stored with wrap into a register `reg` of any fraction length, in
+particular one with fewer fraction bits than the exact result has (the fixed-point multiply `s32/16 * s32/16 -> s32/16`):
+the stored code is `wrap (ROUND (exact * 2^reg.nfrac))`. -/
+def opWQ (args obs : List String) : P String := do
+  match args with
+  | [sx, nx, fx, sy, ny, fy, op, a, b, sr, nr, fr, r, _route] =>
+    let x ← pFmt sx nx fx
+    let y ← pFmt sy ny fy
+    let reg ← pFmt sr nr fr
+    let r ← pRounding r
+    let a ← pInt a
+    let b ← pInt b
+    let va := valueOf x a
+    let vb := valueOf y b
+    let exact ← match op with
+      | "add" => pure (va + vb)
+      | "sub" => pure (va - vb)
+      | "mul" => pure (va * vb)
+      | _ => throw "WQ: op"
+    let k := roundR r (scale exact reg.nfrac)
+    let model := wrap reg k
+    match obs with
+    | [c] =>
+      match c.toInt? with
+      | some c => pure (reply (decide (c = model)) (Chk.c03 reg k c) [toString model])
+      | none => pure (reply false false [toString model])
+    | _ => pure (reply false false [toString model])
+  | _ => throw "WQ: arity"
+
 /-- `R5 <fmt> <rounding> <overflow> <carrier> <route> [v...] | [codes]` — C05 directional contracts judged
 relationally on the observed codes (no reference quantizer in the checker). -/
 def opR5 (args obs : List String) : P String := do
@@ -1079,6 +1109,7 @@ def dispatch (op : String) (args obs : List String) : P String :=
   | "W3" => opW3 args obs
   | "WS" => opWS args obs
   | "WR" => opWR args obs
+  | "WQ" => opWQ args obs
   | "R5" => opR5 args obs
   | "I5" => opI5 args obs
   | "M5" => opM5 args obs
